@@ -6,6 +6,7 @@
   harness).
 -/
 import Driver.Calc
+import GoblVerif.Spec.C01
 
 namespace Driver.C01
 open GoblVerif GoblVerif.Calc Driver Driver.Calc
@@ -17,6 +18,14 @@ def handle (toks : List String) : String :=
     | some (d, []) =>
       let (x, agree) := outText d
       s!"{if agree then 1 else 0} {x}"
+    | some (_, _) => "bad-trailing"
+    | none => "bad-doc"
+  | "exactq" :: rest =>
+    match pDoc rest with
+    | some (d, []) =>
+      let q := GoblVerif.Spec.C01.exactQ d
+      let r (x : Rat) : String := s!"{x.num}/{x.den}"
+      s!"ok {r q.sum} {r q.discount} {r q.charge} {r q.taxIncluded} {r q.total} {r q.tax} {r q.totalWithTax} {r q.payable} {r q.advances} {r q.due}"
     | some (_, _) => "bad-trailing"
     | none => "bad-doc"
   | _ => "bad-op"
